@@ -6,6 +6,19 @@ import re
 
 VERIF = os.path.dirname(os.path.dirname(os.path.abspath(__file__)))
 NOTES = {
+    'C03-17': 'round 10, first missed: no image had a candidate list starting with a blank or a comma (an image token then has only empty URLs); added',
+    'C20-18': 'round 10, first missed: the probe never sent two signals before the loop ran the first callback; scenario "two signals back to back" added',
+    'C06-17': 'round 10, first missed: the misspelled label iso-8559-1 was never served with bytes 0x80-0x9f; added',
+    'C08-18': 'round 10, first missed: no URL parameter was a bare scheme word (http, https, file); added',
+    'C11-17': 'round 10, first missed: no header value had a comma inside a quoted parameter; added',
+    'C18-18': 'round 10, first missed: no request Origin extended or truncated a listed origin by port digits; added',
+    'C09-17': 'round 10, first missed: no deleted graphic was nested inside another graphic; hand pairs added',
+    'C14-17': 'round 10, first missed: no srcset had an empty candidate (trailing or doubled comma, blank value); added to generated images and the malformed documents',
+    'C19-17': 'round 10, first missed: the variants never added or changed an expected hash; a_hash / b_hash variants added',
+    'C07-17': 'round 10, first missed: the scripted pool had no job that fails with a differ error; observer-only pass "differ error is no breakage" added',
+    'C17-17': 'round 10, first missed: the purity workload never repeated a diff with a deleted script inside embedded SVG; added three times',
+    'C05-17': 'round 10, first missed: no two comments stood directly next to one another; two such invisible edits added',
+    'C17-18': 'round 10, first missed: no Content-Type value given by the caller contained a comma; added to the header-unchanged cases',
     'C09-15': 'round 9, first missed: no deleted graphic held its script inside an element named template; hand pairs added (the observer was namespace-aware already)',
     'C01-16': 'round 9, first missed: no image had data-src / data-srcset without a src; lazy-loading markup added to the generated images',
     'C03-16': 'round 9, first missed: no page quoted markup as text (without blanks) where the other had the live element; hand pairs (script, svg, textarea, select) added',
@@ -105,8 +118,8 @@ def main():
     i = s.index('## 11. Seeded changes')
     head = '''## 11. Seeded changes and reverse fixes: which check catches what
 
-%d breaking changes were made by fresh sub-agents in nine rounds (2 per property per round from
-round 2 on; rounds 4 to 9 asked for changes that need something specific to manifest: an interleaving, a
+%d breaking changes were made by fresh sub-agents in ten rounds (2 per property per round from
+round 2 on; rounds 4 to 10 asked for changes that need something specific to manifest: an interleaving, a
 multi-request history, an unusual input, two cooperating edits), each agent given only the text of
 one property and a scratch worktree under `/tmp`; each change was confirmed by me
 (`harness/confirm_seed.sh`: the agent's demonstration passes on the unchanged tree and
